@@ -5,3 +5,4 @@ pub mod cfb;
 pub mod biff;
 pub mod ods;
 pub mod xlsb;
+pub mod simple;
